@@ -66,10 +66,19 @@ func parseCommand(c *updateContext, entry sm.Entry) (command, error) {
 		return commandDummy{}, err
 	}
 	// Entries without a leader index must not discard the index recorded by an earlier entry of the same batch.
-	if cmd.LeaderIndex != nil {
+	// A sequence records its leader index itself, it may turn out to have been applied already.
+	if cmd.LeaderIndex != nil && cmd.Type != regattapb.Command_SEQUENCE {
 		c.leaderIndex = cmd.LeaderIndex
 	}
 	return wrapCommand(cmd), nil
+}
+
+// recordedLeaderIndex returns the leader index recorded so far, by an earlier entry of this batch or in the DB.
+func (c *updateContext) recordedLeaderIndex() (uint64, error) {
+	if c.leaderIndex != nil {
+		return *c.leaderIndex, nil
+	}
+	return readLocalIndex(c.db, sysLeaderIndex)
 }
 
 func wrapCommand(cmd *regattapb.Command) command {
